@@ -117,3 +117,15 @@ func init() {
 		Rule: "one case = (random graph, optionally with vertices relabelled/deleted after the load so that the label index holds stale entries; a typed random program biased to leading hasLabel/hasId/has(_label|_gid) filters and to filters/renders/selects that read earlier steps or marks; backend kvgraph or the hint-honouring decorator; mode literal-vs-optimized, count-vs-rows or spelling-vs-spelling; policy, capacity divisor, schedule seed); non-trivial = the expected side returned rows; distinct = distinct (graph, program, backend, mode, decision-sequence hash)",
 		Assumptions: []string{"the literal plan (one StatementProcessor per statement, every step loading, no optimizer) is the meaning of the statements", "the hint-honouring decorator follows the contract of grids/graph.go (id+label kept, Data empty, Loaded=false)"}}
 }
+
+func init() {
+	props["C03"] = &propCfg{Level: "exploration", QuickRuns: 6000, QuickS: 50, ThoroughRuns: 600000, ThoroughS: 1500,
+		Rule: "one case = a mutation history (graph create/delete, vertex/edge add incl. re-adding ids with other label/endpoints/data, batches, bulk streams, deletes of present and absent things, invalid elements and names) over a universe of 2 graphs x 4 vertex ids x 4 edge ids x 3 labels, with seeded simulated time between calls (same_tick = zero elapsed time as a clock fault); after EVERY step ~130 observables (lookups, listings with and without load, neighbours and incident edges per direction and label filter, label listings, label-index start, graph list, timestamp rule) are compared with the abstract graph; non-trivial = at least 2 operations; distinct = distinct operation sequences",
+		Assumptions: []string{"refgraph is the abstract graph of the property statement (last write wins, vertex delete cascades, edges may dangle)", "validation rules are those of gripql/util.go", "simkv implements the kvi contract; both bulk-write error behaviours (discard / commit) are configurations"}}
+}
+
+func init() {
+	props["C04"] = &propCfg{Level: "fault_enumeration", QuickRuns: 5000, QuickS: 50, ThoroughRuns: 400000, ThoroughS: 1500,
+		Rule: "restart: a C03 history with a clean close/reopen after every call (short histories) or at seeded positions, judged after every step against the abstract graph; crash: for EVERY mutating call of a seeded history the top-level key-value writes it issues are counted on a cloned disk and a crash is injected before each of them in turn (complete enumeration of crash points per call), the store is reopened and must show the abstract state before or after the call (graph deletion: any consistent partial state); both bulk-write error behaviours of the drivers are configurations. non-trivial = at least 2 operations; distinct = distinct (history, mode, configuration)",
+		Assumptions: []string{"each top-level write (Set, Delete, DeletePrefix, committed Update/BulkWrite) is atomic and durable when it returns, as the property states", "freezing the simulated disk at the crash point yields exactly the durable state of a process death at that point", "label listings are not compared (recorded C03 findings on independent observables)"}}
+}
